@@ -476,7 +476,39 @@ fn gen_update(part: Part, cur: &[f64], base: &Prob) -> Upd {
             let pat = pattern.unwrap();
             let mut m = pat.clone();
             m.nzval = newv;
-            if invalid {
+            if invalid && m.nnz() > 0 && chance("samennz", 1, 3) {
+                // same shape and entry count, pattern differing in one array only
+                let k = choose("movek", m.nnz() as u32) as usize;
+                let (r, j) = m.coord(k);
+                let used: Vec<usize> = m.rowval[m.colptr[j]..m.colptr[j + 1]].to_vec();
+                let free: Vec<usize> = (0..m.m).filter(|i| !used.contains(i)).collect();
+                if !free.is_empty() && flag("moverow") {
+                    // the entry sits in another row of its column (rowval differs, colptr same)
+                    probe("c08_mismatch_rowval_only");
+                    let nr = free[choose("newrow", free.len() as u32) as usize];
+                    let (lo, hi) = (m.colptr[j], m.colptr[j + 1]);
+                    let mut col: Vec<(usize, f64)> =
+                        (lo..hi).map(|t| (if t == k { nr } else { m.rowval[t] }, m.nzval[t])).collect();
+                    col.sort_by_key(|e| e.0);
+                    for (t, (rr, vv)) in col.into_iter().enumerate() {
+                        m.rowval[lo + t] = rr;
+                        m.nzval[lo + t] = vv;
+                    }
+                    let _ = r;
+                } else if j + 1 < m.n && m.colptr[j + 1] > m.colptr[j] {
+                    // the last entry of column j now belongs to column j+1 (colptr differs, rowval same)
+                    probe("c08_mismatch_colptr_only");
+                    m.colptr[j + 1] -= 1;
+                } else if j > 0 {
+                    // the first entry of column j now belongs to column j-1
+                    probe("c08_mismatch_colptr_only");
+                    m.colptr[j] += 1;
+                } else {
+                    m.n += 1;
+                    let last = *m.colptr.last().unwrap();
+                    m.colptr.push(last);
+                }
+            } else if invalid {
                 if m.nnz() > 0 && flag("dropentry") {
                     // remove one stored entry: same shape, different pattern
                     let k = choose("dropk", m.nnz() as u32) as usize;
